@@ -3,7 +3,18 @@
 Oracle: plain numpy sums of the value array times cell lengths computed here from the corners
 (cell_d = (pmax_d - pmin_d) / n_d).  Exact variant: integer values, power-of-two cells, corners on
 integer multiples of the cell -> every number is exactly representable and the comparison is `==`.
-General variant: 64 ulp of (sum of |values| entering the sum) x (measure)."""
+General variant: 64 ulp of (sum of |values| entering the sum) x (measure).
+
+Two kinds of cases:
+* "integ":   one fresh mesh, every quantity observed once (plus linearity / per component / translation);
+* "history": observe -> mutate -> observe sequences on ONE mesh object.  Between observations the mesh is transformed in
+  place (scale / translate / rotate90 through the mesh, through a field's `.mesh`, through the Region object the mesh was
+  built from, or by Field.rotate90), its dims/units are renamed, the values are overwritten in place, or a new mesh is
+  derived (copy form / deepcopy) from the already observed one.  After every step the oracle is re-evaluated for the CURRENT
+  geometry, which is taken from the primitive stored state only (region.pmin / pmax / dims / units read back, n = shape of the
+  value array); cell, dV, edges, sums are recomputed here.  Anything the library derived and kept (cell volume, cell, edges,
+  index maps, integrals, means) would be stale against it."""
+import copy
 import itertools
 import numpy as np
 import discretisedfield as df
@@ -21,18 +32,60 @@ CLAUSES = {
     "C06.mean_duplicates": "a direction list with a repeated direction is rejected (ValueError)",
     "C06.linearity": "integrate / cumulative / mean of a*f+b*g == a*(..f) + b*(..g) within 64 ulp of the operand scale",
     "C06.per_component": "every component of the result equals the result for the scalar field holding that component alone",
+    "C06.cell_volume": "read directly at every observation point: mesh.cell == (pmax - pmin)/n, mesh.dV == prod(cell), region.edges == pmax - pmin (4 ulp), mesh.n == shape of the value array",
+    "C06.history": "observe/mutate/observe histories: after every in-place step (mesh/region scale, translate, rotate90 through any handle, Field.rotate90, renaming dims/units, overwriting the values) and every derivation of a new mesh from an observed one, all clauses above are stated again for the CURRENT geometry and values (reported under the clause concerned, sig history-after-<op>); this clause itself: the step did not raise and took effect (edges x |factor|, corners + vector, edges of the rotated pair swapped for odd k, new names / values read back; rtol 1e-9 of the coordinate scale) and left the mesh it was derived from untouched",
     "C06.translation": "the same values on a translated mesh give the same numbers (== when the shift is a whole number of power-of-two cells; else within 64 ulp x (1 + |coordinate|/edge), the cell of the shifted mesh being edges/n of rounded corners) on the accordingly shifted result mesh",
 }
 RULE = ("seeded meshes with 1-4 dims (n <= 6 per axis, anisotropic cells, renamed dims, distinct units), 1-4 components, exact and "
         "general variant; per case: every direction, every order of directions (<= 24), every non-empty subset of directions for the "
-        "mean in a seeded order; non-trivial = more than one cell; distinct by (kind, params)")
+        "mean in a seeded order; histories: the same meshes (cells within 3 decades), 2-4 seeded steps out of {scale (scalar / per-axis "
+        "factor, either sign, centre or explicit reference point), translate, rotate90 (k in 1,2,3,-1; pairs of axes with equal n, or "
+        "Field.rotate90 of scalar fields on any pair), rename dims / units, overwrite values (view write, array setter, "
+        "update_field_values), derive (copy-form scale / translate / rotate90, deepcopy + in-place scale)} through every handle (mesh, "
+        "field.mesh, another field's mesh, the Region object, field.mesh.region), with a seeded ordered subset of the quantity groups "
+        "(cell/dV attributes, volume, iterated, directional, cumulative, single-direction mean, other means) observed before the first "
+        "step and all groups in a seeded order after each step; plus fixed histories; "
+        "non-trivial = more than one cell; distinct by (kind, params)")
 ASSUMPTIONS = ["bounded: <= 6 cells per axis, <= 4 dims, <= 4 components, seeded values and geometry",
-               "trusted: numpy.sum on the value array, Field construction from arrays"]
+               "trusted: numpy.sum on the value array, Field construction from arrays",
+               "histories: region.pmin / pmax / dims / units as read back after a step are the primitive state the oracle starts from "
+               "(what the transformations do to them is C12/C13's business; here only a loose took-effect check); exact comparison is "
+               "kept until the first rotate90 (cos(k pi/2) is not exactly 0), 64 ulp afterwards",
+               "histories: <= 4 steps, factors 2^-2..2^3 / 3 / 1.5 (exact) or 10^-2..10^2 (general), either sign"]
 
 NAMES = ["a", "b", "c", "e", "g", "h", "k", "p", "q", "r", "s", "u", "w", "x", "y", "z"]
 UNITS = ["m", "s", "kg", "A", "K", "rad"]
 VNAMES = ["p", "q", "r", "s", "u", "w", "ma", "mb", "e1", "e2"]
 SIG_MEAN1D = "mean-str-direction-on-1d-mesh-raises"
+
+
+GROUPS = ["attrs", "volume", "fubini", "dir", "cum", "mean1", "means"]
+VIAS = ["mesh", "field", "other-field", "region", "field-region"]
+EXACT_FACTORS = [0.25, 0.5, 2.0, 4.0, 8.0, 3.0, 1.5, -2.0, -0.5]
+
+
+def _base(rng, ndim, nvdim, exact, narrow=False):
+    hi = {1: 8, 2: 6, 3: 5, 4: 4}[ndim]
+    n = rng.integers(1, hi + 1, size=ndim).tolist()
+    if max(n) == 1:
+        n[int(rng.integers(ndim))] = int(rng.integers(2, hi + 1))
+    dims = [str(d) for d in rng.choice(NAMES, size=ndim, replace=False)]
+    units = [str(u) for u in rng.choice(UNITS, size=ndim, replace=False)]
+    if exact:
+        cell = (2.0 ** rng.integers(-4, 5, size=ndim)).tolist()
+        p1 = (np.array(cell) * rng.integers(-6, 7, size=ndim)).tolist()
+        shift = (np.array(cell) * rng.integers(-9, 10, size=ndim)).tolist()
+    else:
+        if narrow:      # histories rotate axes into each other: keep the cells within 3 decades
+            cell = (10.0 ** (rng.uniform(-8, 1) + rng.uniform(-1.5, 1.5, size=ndim))).tolist()
+        else:
+            cell = (10.0 ** rng.uniform(-9, 2, size=ndim)).tolist()
+        p1 = (np.array(cell) * rng.uniform(-10, 10, size=ndim)).tolist()
+        shift = (np.array(cell) * rng.uniform(-10, 10, size=ndim)).tolist()
+    vdims = [str(v) for v in rng.choice(VNAMES, size=nvdim, replace=False)] if rng.random() < 0.6 else None
+    return {"n": n, "cell": cell, "p1": p1, "flip": rng.integers(0, 2, size=ndim).tolist(), "dims": dims,
+            "units": units, "nvdim": nvdim, "vdims": vdims, "exact": exact, "shift": shift,
+            "seed": int(rng.integers(1 << 30))}
 
 
 def cases(ctx):
@@ -42,28 +95,151 @@ def cases(ctx):
         for nvdim in (1, 2, 3, 4):
             for exact in (True, False):
                 for _ in range(reps):
-                    hi = {1: 8, 2: 6, 3: 5, 4: 4}[ndim]
-                    n = rng.integers(1, hi + 1, size=ndim).tolist()
-                    if max(n) == 1:
-                        n[int(rng.integers(ndim))] = int(rng.integers(2, hi + 1))
-                    dims = [str(d) for d in rng.choice(NAMES, size=ndim, replace=False)]
-                    units = [str(u) for u in rng.choice(UNITS, size=ndim, replace=False)]
-                    if exact:
-                        cell = (2.0 ** rng.integers(-4, 5, size=ndim)).tolist()
-                        p1 = (np.array(cell) * rng.integers(-6, 7, size=ndim)).tolist()
-                        shift = (np.array(cell) * rng.integers(-9, 10, size=ndim)).tolist()
-                    else:
-                        cell = (10.0 ** rng.uniform(-9, 2, size=ndim)).tolist()
-                        p1 = (np.array(cell) * rng.uniform(-10, 10, size=ndim)).tolist()
-                        shift = (np.array(cell) * rng.uniform(-10, 10, size=ndim)).tolist()
-                    vdims = [str(v) for v in rng.choice(VNAMES, size=nvdim, replace=False)] if rng.random() < 0.6 else None
-                    yield "integ", {"n": n, "cell": cell, "p1": p1, "flip": rng.integers(0, 2, size=ndim).tolist(), "dims": dims,
-                                    "units": units, "nvdim": nvdim, "vdims": vdims, "exact": exact, "shift": shift,
-                                    "seed": int(rng.integers(1 << 30))}
+                    yield "integ", _base(rng, ndim, nvdim, exact)
     yield "integ", {"n": [1], "cell": [0.5], "p1": [0.0], "flip": [0], "dims": ["x"], "units": ["m"], "nvdim": 1, "vdims": None,
                     "exact": True, "shift": [1.0], "seed": 1}
     yield "integ", {"n": [2, 1, 3], "cell": [1.0, 4.0, 0.25], "p1": [0.0, 0.0, 0.0], "flip": [0, 1, 0], "dims": ["x", "y", "z"],
                     "units": ["m", "m", "m"], "nvdim": 3, "vdims": None, "exact": True, "shift": [0.0, 8.0, -1.0], "seed": 2}
+    # ---------------- observe / mutate / observe histories
+    hreps = 4 if ctx.tier == "quick" else 20
+    for ndim in (1, 2, 3, 4):
+        for nvdim in (1, 2, 3, 4):
+            for exact in (True, False):
+                for _ in range(hreps):
+                    yield "history", _history(rng, ndim, nvdim, exact)
+    yield from _fixed_histories()
+
+
+def _obs(rng, full=False):
+    if full or rng.random() < 0.5:
+        return [GROUPS[i] for i in rng.permutation(len(GROUPS))]
+    k = int(rng.integers(1, len(GROUPS)))
+    return [GROUPS[i] for i in rng.permutation(len(GROUPS))[:k]]
+
+
+def _history(rng, ndim, nvdim, exact):
+    pr = _base(rng, ndim, nvdim, exact, narrow=True)
+    n = pr["n"]
+    if ndim >= 2 and rng.random() < 0.65:       # a pair of axes with equal n: in-place rotations keep the field consistent
+        i, j = (int(q) for q in rng.choice(ndim, size=2, replace=False))
+        n[j] = n[i]
+        if max(n) == 1:
+            n[i] = n[j] = 2
+    cell0 = np.array(pr["cell"])
+    p0 = np.array(pr["p1"])
+    ncur = list(n)
+
+    def factor():
+        if exact:
+            if rng.random() < 0.5:
+                return float(rng.choice(EXACT_FACTORS))
+            fs = [float(2.0 ** q) for q in rng.integers(-2, 4, size=ndim)]
+            if all(q == 1.0 for q in fs):
+                fs[int(rng.integers(ndim))] = 4.0
+            return fs
+        sign = lambda: -1.0 if rng.random() < 0.2 else 1.0
+        if rng.random() < 0.5:
+            return sign() * float(10.0 ** rng.uniform(-2, 2))
+        return [sign() * float(10.0 ** rng.uniform(-2, 2)) for _ in range(ndim)]
+
+    def ref():
+        if rng.random() < 0.5:
+            return None
+        if exact:
+            return (cell0 * rng.integers(-8, 9, size=ndim)).tolist()
+        return (p0 + cell0 * np.array(n) * rng.uniform(-2, 3, size=ndim)).tolist()
+
+    def vector():
+        if exact:
+            return (cell0 * rng.integers(-9, 10, size=ndim)).tolist()
+        return (cell0 * rng.uniform(-10, 10, size=ndim)).tolist()
+
+    def rot(any_pair):
+        pairs = [(i, j) for i in range(ndim) for j in range(ndim) if i != j and (any_pair or ncur[i] == ncur[j])]
+        if not pairs:
+            return None
+        i, j = pairs[int(rng.integers(len(pairs)))]
+        return {"ax": [i, j], "k": int(rng.choice([1, 2, 3, -1])), "ref": ref()}
+
+    steps = []
+    nsteps = int(rng.integers(2, 5))
+    while len(steps) < nsteps:
+        op = str(rng.choice(["scale", "translate", "rotate90", "rename", "values", "derive"], p=[0.34, 0.14, 0.2, 0.1, 0.1, 0.12]))
+        st = {"op": op}
+        if op == "scale":
+            st.update(via=str(rng.choice(VIAS)), factor=factor(), ref=ref())
+        elif op == "translate":
+            st.update(via=str(rng.choice(VIAS)), vector=vector())
+        elif op == "rotate90":
+            via = str(rng.choice(VIAS + ["field-rotate"] * 3)) if (nvdim == 1 and ndim >= 2) else str(rng.choice(VIAS))
+            r = rot(via == "field-rotate")
+            if r is None:
+                continue
+            st.update(via=via, **r)
+            if via == "field-rotate" and r["k"] % 2 == 1:
+                i, j = r["ax"]
+                ncur[i], ncur[j] = ncur[j], ncur[i]
+        elif op == "rename":
+            if rng.random() < 0.6:
+                st.update(what="dims", names=[str(d) for d in rng.choice(NAMES, size=ndim, replace=False)])
+            else:
+                st.update(what="units", names=[str(u) for u in rng.choice(UNITS, size=ndim, replace=False)])
+        elif op == "values":
+            st.update(how=str(rng.choice(["view", "setter", "update"])), seed=int(rng.integers(1 << 30)))
+        else:
+            how = str(rng.choice(["scale", "translate", "rotate90", "deepcopy-scale"]))
+            if how == "rotate90":
+                r = rot(True) if ndim >= 2 else None
+                if r is None:
+                    continue
+                st.update(how=how, **r)
+                if r["k"] % 2 == 1:
+                    i, j = r["ax"]
+                    ncur[i], ncur[j] = ncur[j], ncur[i]
+            elif how == "translate":
+                st.update(how=how, vector=vector())
+            else:
+                st.update(how=how, factor=factor(), ref=ref())
+        st["obs"] = _obs(rng, full=True)      # all groups in a seeded order: what went stale shows right after the step that caused it
+        steps.append(st)
+    pr["obs0"] = _obs(rng)
+    pr["steps"] = steps
+    del pr["shift"]
+    return pr
+
+
+def _fixed_histories():
+    """every op / handle at least once in every run, whatever the seed"""
+    b3 = {"n": [4, 3, 2], "cell": [2.0, 2.0, 1.0], "p1": [-3.0, 1.0, 0.0], "flip": [0, 1, 0], "dims": ["x", "y", "z"],
+          "units": ["m", "m", "m"], "nvdim": 2, "vdims": None, "exact": True, "seed": 11}
+    for g0 in (["volume"], ["attrs"], ["mean1", "dir"], ["fubini", "cum", "means"], list(GROUPS)):
+        for via in VIAS:
+            yield "history", dict(b3, obs0=g0, steps=[
+                {"op": "scale", "via": via, "factor": [2.0, 1.0, 4.0], "ref": None, "obs": list(GROUPS)},
+                {"op": "scale", "via": via, "factor": 0.5, "ref": [1.0, 0.0, -2.0], "obs": list(reversed(GROUPS))}])
+    b2 = {"n": [3, 3], "cell": [2.0, 0.5], "p1": [0.0, 0.0], "flip": [0, 0], "dims": ["a", "b"], "units": ["m", "s"], "nvdim": 1,
+          "vdims": None, "exact": False, "seed": 12}
+    for via in VIAS + ["field-rotate"]:
+        yield "history", dict(b2, obs0=list(GROUPS), steps=[
+            {"op": "rotate90", "via": via, "ax": [0, 1], "k": 1, "ref": None, "obs": list(GROUPS)},
+            {"op": "translate", "via": "mesh" if via == "field-rotate" else via, "vector": [0.3, -7.0], "obs": list(GROUPS)},
+            {"op": "rename", "what": "dims", "names": ["b", "a"], "obs": list(GROUPS)},
+            {"op": "rename", "what": "units", "names": ["K", "A"], "obs": list(GROUPS)},
+            {"op": "rotate90", "via": via, "ax": [1, 0], "k": 3, "ref": [1.0, 1.0], "obs": list(reversed(GROUPS))}])
+    b1 = {"n": [5], "cell": [0.3], "p1": [-0.7], "flip": [1], "dims": ["t"], "units": ["s"], "nvdim": 3, "vdims": ["p", "q", "r"],
+          "exact": False, "seed": 13}
+    for how in ("view", "setter", "update"):
+        yield "history", dict(b1, obs0=list(GROUPS), steps=[
+            {"op": "values", "how": how, "seed": 5, "obs": list(GROUPS)},
+            {"op": "scale", "via": "region", "factor": -3.0, "ref": None, "obs": list(GROUPS)},
+            {"op": "values", "how": how, "seed": 6, "obs": list(reversed(GROUPS))}])
+    b4 = {"n": [2, 3, 2, 2], "cell": [1.0, 0.5, 4.0, 0.25], "p1": [0.0, 1.0, -4.0, 0.5], "flip": [0, 0, 1, 1],
+          "dims": ["x", "y", "z", "w"], "units": ["m", "m", "m", "s"], "nvdim": 1, "vdims": None, "exact": True, "seed": 14}
+    for how, extra in (("scale", {"factor": [2.0, 0.5, 4.0, 1.0], "ref": None}), ("translate", {"vector": [1.0, -2.0, 8.0, 0.75]}),
+                       ("rotate90", {"ax": [1, 3], "k": 1, "ref": None}), ("deepcopy-scale", {"factor": 4.0, "ref": [0.0, 0.0, 0.0, 0.0]})):
+        yield "history", dict(b4, obs0=list(GROUPS), steps=[
+            dict({"op": "derive", "how": how, "obs": list(GROUPS)}, **extra),
+            {"op": "scale", "via": "field", "factor": [0.5, 2.0, 2.0, 8.0], "ref": None, "obs": list(GROUPS)}])
 
 
 def _mesh(pr, shift=None):
@@ -81,14 +257,36 @@ def _mesh(pr, shift=None):
     return mesh, lo, hi, (hi - lo) / n
 
 
-def _mesh_ok(m, keep, pr, lo, hi, n):
+class Geo:
+    """the oracle's picture of a mesh: names, n and the two corners; everything else is derived here"""
+
+    def __init__(self, dims, units, n, lo, hi):
+        self.dims = [str(d) for d in dims]
+        self.units = [str(u) for u in units]
+        self.n = [int(k) for k in n]
+        self.lo = np.array(lo, dtype=float)
+        self.hi = np.array(hi, dtype=float)
+        self.ndim = len(self.n)
+        self.edges = self.hi - self.lo
+        self.cell = self.edges / np.array(self.n)
+
+    @classmethod
+    def live(cls, mesh, F):
+        r = mesh.region
+        return cls(r.dims, r.units, F.shape[:-1], r.pmin, r.pmax)
+
+    def coord(self):
+        return float(np.max(np.maximum(np.abs(self.lo), np.abs(self.hi)) + self.edges))
+
+
+def _mesh_ok(m, keep, geo):
     """m is the mesh with only the axes `keep` (sorted original indices) left"""
     try:
-        return (tuple(m.region.dims) == tuple(pr["dims"][i] for i in keep)
-                and tuple(m.region.units) == tuple(pr["units"][i] for i in keep)
-                and np.array_equal(m.n, [n[i] for i in keep])
-                and np.array_equal(m.region.pmin, lo[keep]) and np.array_equal(m.region.pmax, hi[keep])
-                and ulp_close(m.cell, ((hi - lo) / np.array(n))[keep], 4))
+        return (tuple(m.region.dims) == tuple(geo.dims[i] for i in keep)
+                and tuple(m.region.units) == tuple(geo.units[i] for i in keep)
+                and np.array_equal(m.n, [geo.n[i] for i in keep])
+                and np.array_equal(m.region.pmin, geo.lo[keep]) and np.array_equal(m.region.pmax, geo.hi[keep])
+                and ulp_close(m.cell, geo.cell[keep], 4))
     except Exception:
         return False
 
@@ -107,13 +305,192 @@ class Cmp:
         return ulp_close(got, want, 64 * g, scale)
 
 
+def _values(rng, exact, shape):
+    if exact:
+        return rng.integers(-50, 51, size=shape).astype(float)
+    return rng.uniform(-1, 1, size=shape) * 10.0 ** rng.uniform(-6, 6)
+
+
+def _observe(ctx, f, F, geo, cmp, rng, groups, sig=None, where=None):
+    """state the clauses of the listed quantity groups, in the listed order, for field f whose values are F on geometry geo"""
+    n, ndim, nv, dims = geo.n, geo.ndim, F.shape[-1], geo.dims
+    cell, edges = geo.cell, geo.edges
+    shape = F.shape
+    cax = tuple(range(ndim))
+    dV = float(np.prod(cell))
+    absF = np.abs(F)
+    want_vol = np.sum(F, axis=cax) * dV
+    sc_vol = np.sum(absF, axis=cax) * dV
+    st = {"okv": False, "vol": None, "di": {}}
+
+    def rq(cond, clause, what, s=None, **detail):
+        if where is not None:
+            detail["where"] = where
+        return ctx.require(cond, clause, what, sig=s if s is not None else sig, **detail)
+
+    def dir_oracle(ax):
+        return np.sum(F, axis=ax) * cell[ax], np.sum(absF, axis=ax) * cell[ax]
+
+    for grp in groups:
+        if grp == "attrs":
+            m = f.mesh
+            r, got = raises(Exception, lambda: (np.array(m.cell), m.dV, np.array(m.region.edges), np.array(m.n)))
+            ok = (not r and ulp_close(got[0], cell, 4) and isinstance(got[1], float) and ulp_close(got[1], dV, 4)
+                  and ulp_close(got[2], edges, 4) and np.array_equal(got[3], n))
+            rq(ok, "C06.cell_volume", "mesh.cell / mesh.dV / region.edges / mesh.n do not describe the current mesh",
+               got=repr(got), want=[cell, dV, edges, n])
+
+        elif grp == "volume":
+            r, vol = raises(Exception, f.integrate)
+            okv = not r and isinstance(vol, np.ndarray) and cmp(vol, want_vol, sc_vol)
+            rq(okv, "C06.volume", "integrate() != sum * cell volume", got=None if r else vol, want=want_vol, error=repr(vol) if r else None)
+            r2, vol2 = raises(Exception, df.integrate, f)
+            rq(not r and not r2 and np.array_equal(vol, vol2), "C06.volume", "discretisedfield.integrate(f) differs from f.integrate()")
+            st["okv"], st["vol"] = okv, vol
+
+        elif grp == "fubini":
+            okf, bad = True, None
+            for perm in itertools.permutations(range(ndim)):
+                cur = f
+                try:
+                    for i in perm:
+                        cur = cur.integrate(dims[i])
+                except Exception as e:
+                    okf, bad = False, (list(perm), repr(e))
+                    break
+                if not (isinstance(cur, np.ndarray) and cmp(cur, want_vol, sc_vol)):
+                    okf, bad = False, (list(perm), np.asarray(cur).tolist() if isinstance(cur, np.ndarray) else repr(cur))
+                    break
+            rq(okf, "C06.fubini", "iterated directional integrals differ from the volume integral", order_and_result=bad, want=want_vol)
+
+        elif grp == "dir":
+            for ax, d in enumerate(dims):
+                keep = [i for i in range(ndim) if i != ax]
+                want, sc = dir_oracle(ax)
+                r, di = raises(Exception, f.integrate, d)
+                if r:
+                    rq(False, "C06.directional", "integrate(direction) raised", s="raises-" + type(di).__name__, error=repr(di), axis=ax)
+                    continue
+                if ndim == 1:
+                    rq(isinstance(di, np.ndarray) and cmp(di, want, sc), "C06.directional", "1-d: integrate(d) != sum*cell", axis=ax)
+                    di_arr = di if isinstance(di, np.ndarray) else None
+                else:
+                    isf = isinstance(di, df.Field)
+                    rq(isf and di.nvdim == nv and cmp(di.array, want, sc), "C06.directional", "integrate(d) != sum along d * cell_d", axis=ax, n=n)
+                    rq(isf and _mesh_ok(di.mesh, keep, geo), "C06.axis_removed", "integrate(d): wrong result mesh", axis=ax,
+                       got=repr(di.mesh) if isf else None)
+                    di_arr = di.array if isf else None
+                r3, di3 = raises(Exception, df.integrate, f, d)
+                rq(not r3 and di_arr is not None and np.array_equal(di3 if ndim == 1 else di3.array, di_arr), "C06.directional",
+                   "discretisedfield.integrate(f, d) differs from the method", axis=ax)
+                st["di"][ax] = di_arr
+
+        elif grp == "cum":
+            for ax, d in enumerate(dims):
+                want, sc = dir_oracle(ax)
+                r, cu = raises(Exception, f.integrate, d, cumulative=True)
+                if r or not isinstance(cu, df.Field):
+                    rq(False, "C06.cumulative", "cumulative integral raised / no field", s="raises-" + type(cu).__name__, error=repr(cu))
+                    continue
+                wantc = np.zeros(shape)
+                scc = np.zeros(shape)
+                for i in range(n[ax]):
+                    sl = [slice(None)] * (ndim + 1)
+                    sl[ax] = i
+                    pre = [slice(None)] * (ndim + 1)
+                    pre[ax] = slice(0, i)
+                    wantc[tuple(sl)] = cell[ax] * (np.sum(F[tuple(pre)], axis=ax) + F[tuple(sl)] / 2)
+                    scc[tuple(sl)] = cell[ax] * (np.sum(absF[tuple(pre)], axis=ax) + absF[tuple(sl)] / 2)
+                rq(cu.nvdim == nv and cmp(cu.array, wantc, scc), "C06.cumulative", "cumulative[i] != cell*(sum of preceding + half own)",
+                   axis=ax, n=n)
+                rq(_mesh_ok(cu.mesh, list(range(ndim)), geo), "C06.axis_removed", "cumulative integral changed the mesh", axis=ax)
+                last = [slice(None)] * (ndim + 1)
+                last[ax] = n[ax] - 1
+                # against the directional integral observed in this round if there is one, else against its oracle value
+                total = st["di"].get(ax)
+                if cu.array.shape == shape:
+                    rq(cmp(cu.array[tuple(last)] + cell[ax] * F[tuple(last)] / 2, want if total is None else total, sc), "C06.cumulative_last",
+                       "last cumulative entry + half last cell != directional integral", axis=ax)
+                r4, cu4 = raises(Exception, df.integrate, f, d, True)
+                rq(not r4 and np.array_equal(cu4.array, cu.array), "C06.cumulative", "discretisedfield.integrate(f, d, True) differs", axis=ax)
+            r, _ = raises(ValueError, f.integrate, cumulative=True)
+            rq(r, "C06.cumulative", "cumulative integral without a direction accepted")
+
+        elif grp == "mean1":        # mean over one direction given as a string
+            for ax, d in enumerate(dims):
+                keep = [i for i in range(ndim) if i != ax]
+                want, sc = dir_oracle(ax)
+                wantm = want / edges[ax]
+                scm = sc / edges[ax]
+                di_arr = st["di"].get(ax)
+                r, me = raises(Exception, f.mean, d)
+                if r:
+                    rq(False, "C06.mean", "mean(direction) raised",
+                       s=SIG_MEAN1D if (ndim == 1 and isinstance(me, ValueError) and sig in (None, "history-initial")) else "raises-" + type(me).__name__, error=repr(me), ndim=ndim)
+                elif ndim == 1:
+                    rq(isinstance(me, np.ndarray) and cmp(me, wantm, scm), "C06.mean", "1-d: mean(d) != integrate(d)/edge")
+                else:
+                    isf = isinstance(me, df.Field)
+                    rq(isf and cmp(me.array, wantm, scm) and (di_arr is None or cmp(me.array, di_arr / edges[ax], scm)), "C06.mean",
+                       "mean(d) != integrate(d)/edge_d", axis=ax)
+                    rq(isf and _mesh_ok(me.mesh, keep, geo), "C06.axis_removed", "mean(d): wrong result mesh", axis=ax)
+
+        elif grp == "means":        # mean over none / subsets
+            vol_ext = float(np.prod(edges))
+            wantm = want_vol / vol_ext
+            scm = sc_vol / vol_ext
+            r, m0 = raises(Exception, f.mean)
+            rq(not r and isinstance(m0, np.ndarray) and cmp(m0, wantm, scm) and (not st["okv"] or cmp(m0, st["vol"] / vol_ext, scm)),
+               "C06.mean", "mean() != integrate()/volume", got=None if r else m0, want=wantm)
+            for k in range(1, ndim + 1):
+                for sub in itertools.combinations(range(ndim), k):
+                    order = [int(i) for i in rng.permutation(sub)]
+                    dirs = [dims[i] for i in order]
+                    if rng.random() < 0.5:
+                        dirs = tuple(dirs)
+                    keep = [i for i in range(ndim) if i not in sub]
+                    ext = float(np.prod(edges[list(sub)]))
+                    want = np.sum(F, axis=tuple(sub)) * float(np.prod(cell[list(sub)])) / ext
+                    sc = np.sum(absF, axis=tuple(sub)) * float(np.prod(cell[list(sub)])) / ext
+                    r, me = raises(Exception, f.mean, dirs)
+                    if r:
+                        rq(False, "C06.mean", "mean(directions) raised", s="raises-" + type(me).__name__, error=repr(me), dirs=list(dirs))
+                        continue
+                    if k == ndim:
+                        rq(isinstance(me, np.ndarray) and cmp(me, want, sc), "C06.mean", "mean over all directions (listed) != integral/volume",
+                           dirs=list(dirs))
+                        continue
+                    isf = isinstance(me, df.Field)
+                    ok = isf and cmp(me.array, want, sc)
+                    if ok:      # the statement's wording: the iterated integral divided by the integrated extent
+                        def chain():
+                            cur = f
+                            for dn in dirs:
+                                cur = cur.integrate(dn)
+                            return cur.array
+                        rc, cur = raises(Exception, chain)
+                        ok = not rc and cmp(me.array, cur / ext, sc)
+                    rq(ok, "C06.mean", "mean over several directions != iterated integral / extent", dirs=list(dirs), n=n)
+                    rq(isf and _mesh_ok(me.mesh, keep, geo), "C06.axis_removed", "mean([..]): wrong result mesh", dirs=list(dirs))
+            dup = [dims[0], dims[0]] if ndim == 1 else [dims[0], dims[-1], dims[0]]
+            r, e = raises(ValueError, f.mean, dup)
+            rq(r, "C06.mean_duplicates", "duplicate directions accepted", dirs=dup)
+            r, e = raises(ValueError, f.mean, tuple(dup))
+            rq(r, "C06.mean_duplicates", "duplicate directions (tuple) accepted", dirs=dup)
+        else:
+            raise ValueError("unknown group %r" % (grp,))
+
+
 def check(kind, pr, ctx):
+    if kind == "history":
+        return _check_history(pr, ctx)
     n = list(pr["n"])
     ndim, nv, exact = len(n), pr["nvdim"], pr["exact"]
     dims = pr["dims"]
     if int(np.prod(n)) == 1:
         ctx.trivial()
     mesh, lo, hi, cell = _mesh(pr)
+    geo = Geo(dims, pr["units"], n, lo, hi)
     edges = hi - lo
     rng = np.random.default_rng(pr["seed"])
     shape = (*n, nv)
@@ -131,139 +508,11 @@ def check(kind, pr, ctx):
     H = a * F + b * G
     h = df.Field(mesh, value=H.copy(), **kw)
     cmp = Cmp(exact)
-    cax = tuple(range(ndim))
     dV = float(np.prod(cell))
     absF = np.abs(F)
 
-    # ---------------- volume integral
-    want_vol = np.sum(F, axis=cax) * dV
-    sc_vol = np.sum(absF, axis=cax) * dV
-    r, vol = raises(Exception, f.integrate)
-    okv = not r and isinstance(vol, np.ndarray) and cmp(vol, want_vol, sc_vol)
-    ctx.require(okv, "C06.volume", "integrate() != sum * cell volume", got=None if r else vol, want=want_vol, error=repr(vol) if r else None)
-    r2, vol2 = raises(Exception, df.integrate, f)
-    ctx.require(not r and not r2 and np.array_equal(vol, vol2), "C06.volume", "discretisedfield.integrate(f) differs from f.integrate()")
-
-    # ---------------- direction by direction, every order
-    orders = list(itertools.permutations(range(ndim)))
-    okf, bad = True, None
-    for perm in orders:
-        cur = f
-        try:
-            for i in perm:
-                cur = cur.integrate(dims[i])
-        except Exception as e:
-            okf, bad = False, (list(perm), repr(e))
-            break
-        if not (isinstance(cur, np.ndarray) and cmp(cur, want_vol, sc_vol)):
-            okf, bad = False, (list(perm), np.asarray(cur).tolist() if isinstance(cur, np.ndarray) else repr(cur))
-            break
-    ctx.require(okf, "C06.fubini", "iterated directional integrals differ from the volume integral", order_and_result=bad, want=want_vol)
-
-    # ---------------- directional, cumulative, single-direction mean
-    for ax, d in enumerate(dims):
-        keep = [i for i in range(ndim) if i != ax]
-        want = np.sum(F, axis=ax) * cell[ax]
-        sc = np.sum(absF, axis=ax) * cell[ax]
-        r, di = raises(Exception, f.integrate, d)
-        if r:
-            ctx.require(False, "C06.directional", "integrate(direction) raised", sig="raises-" + type(di).__name__, error=repr(di), axis=ax)
-            continue
-        if ndim == 1:
-            ctx.require(isinstance(di, np.ndarray) and cmp(di, want, sc), "C06.directional", "1-d: integrate(d) != sum*cell", axis=ax)
-            di_arr = di if isinstance(di, np.ndarray) else None
-        else:
-            isf = isinstance(di, df.Field)
-            ctx.require(isf and di.nvdim == nv and cmp(di.array, want, sc), "C06.directional", "integrate(d) != sum along d * cell_d", axis=ax,
-                        n=n)
-            ctx.require(isf and _mesh_ok(di.mesh, keep, pr, lo, hi, n), "C06.axis_removed", "integrate(d): wrong result mesh", axis=ax,
-                        got=repr(di.mesh) if isf else None)
-            di_arr = di.array if isf else None
-        r3, di3 = raises(Exception, df.integrate, f, d)
-        ctx.require(not r3 and di_arr is not None and np.array_equal(di3 if ndim == 1 else di3.array, di_arr), "C06.directional",
-                    "discretisedfield.integrate(f, d) differs from the method", axis=ax)
-        # cumulative
-        r, cu = raises(Exception, f.integrate, d, cumulative=True)
-        if r or not isinstance(cu, df.Field):
-            ctx.require(False, "C06.cumulative", "cumulative integral raised / no field", sig="raises-" + type(cu).__name__, error=repr(cu))
-        else:
-            wantc = np.zeros(shape)
-            scc = np.zeros(shape)
-            for i in range(n[ax]):
-                sl = [slice(None)] * (ndim + 1)
-                sl[ax] = i
-                pre = [slice(None)] * (ndim + 1)
-                pre[ax] = slice(0, i)
-                wantc[tuple(sl)] = cell[ax] * (np.sum(F[tuple(pre)], axis=ax) + F[tuple(sl)] / 2)
-                scc[tuple(sl)] = cell[ax] * (np.sum(absF[tuple(pre)], axis=ax) + absF[tuple(sl)] / 2)
-            ctx.require(cu.nvdim == nv and cmp(cu.array, wantc, scc), "C06.cumulative", "cumulative[i] != cell*(sum of preceding + half own)",
-                        axis=ax, n=n)
-            ctx.require(_mesh_ok(cu.mesh, list(range(ndim)), pr, lo, hi, n), "C06.axis_removed", "cumulative integral changed the mesh", axis=ax)
-            last = [slice(None)] * (ndim + 1)
-            last[ax] = n[ax] - 1
-            if di_arr is not None:
-                ctx.require(cmp(cu.array[tuple(last)] + cell[ax] * F[tuple(last)] / 2, di_arr, sc), "C06.cumulative_last",
-                            "last cumulative entry + half last cell != directional integral", axis=ax)
-            r4, cu4 = raises(Exception, df.integrate, f, d, True)
-            ctx.require(not r4 and np.array_equal(cu4.array, cu.array), "C06.cumulative", "discretisedfield.integrate(f, d, True) differs", axis=ax)
-        # mean over one direction given as a string
-        wantm = want / edges[ax]
-        scm = sc / edges[ax]
-        r, me = raises(Exception, f.mean, d)
-        if r:
-            ctx.require(False, "C06.mean", "mean(direction) raised",
-                        sig=SIG_MEAN1D if (ndim == 1 and isinstance(me, ValueError)) else "raises-" + type(me).__name__, error=repr(me), ndim=ndim)
-        elif ndim == 1:
-            ctx.require(isinstance(me, np.ndarray) and cmp(me, wantm, scm), "C06.mean", "1-d: mean(d) != integrate(d)/edge")
-        else:
-            isf = isinstance(me, df.Field)
-            ctx.require(isf and cmp(me.array, wantm, scm) and (di_arr is None or cmp(me.array, di_arr / edges[ax], scm)), "C06.mean",
-                        "mean(d) != integrate(d)/edge_d", axis=ax)
-            ctx.require(isf and _mesh_ok(me.mesh, keep, pr, lo, hi, n), "C06.axis_removed", "mean(d): wrong result mesh", axis=ax)
-    r, _ = raises(ValueError, f.integrate, cumulative=True)
-    ctx.require(r, "C06.cumulative", "cumulative integral without a direction accepted")
-
-    # ---------------- mean over none / subsets
-    wantm = want_vol / float(np.prod(edges))
-    scm = sc_vol / float(np.prod(edges))
-    r, m0 = raises(Exception, f.mean)
-    ctx.require(not r and isinstance(m0, np.ndarray) and cmp(m0, wantm, scm) and (not okv or cmp(m0, vol / float(np.prod(edges)), scm)),
-                "C06.mean", "mean() != integrate()/volume", got=None if r else m0, want=wantm)
-    for k in range(1, ndim + 1):
-        for sub in itertools.combinations(range(ndim), k):
-            order = [int(i) for i in rng.permutation(sub)]
-            dirs = [dims[i] for i in order]
-            if rng.random() < 0.5:
-                dirs = tuple(dirs)
-            keep = [i for i in range(ndim) if i not in sub]
-            ext = float(np.prod(edges[list(sub)]))
-            want = np.sum(F, axis=tuple(sub)) * float(np.prod(cell[list(sub)])) / ext
-            sc = np.sum(absF, axis=tuple(sub)) * float(np.prod(cell[list(sub)])) / ext
-            r, me = raises(Exception, f.mean, dirs)
-            if r:
-                ctx.require(False, "C06.mean", "mean(directions) raised", sig="raises-" + type(me).__name__, error=repr(me), dirs=list(dirs))
-                continue
-            if k == ndim:
-                ctx.require(isinstance(me, np.ndarray) and cmp(me, want, sc), "C06.mean", "mean over all directions (listed) != integral/volume",
-                            dirs=list(dirs))
-                continue
-            isf = isinstance(me, df.Field)
-            ok = isf and cmp(me.array, want, sc)
-            if ok:      # the statement's wording: the iterated integral divided by the integrated extent
-                def chain():
-                    cur = f
-                    for dn in dirs:
-                        cur = cur.integrate(dn)
-                    return cur.array
-                rc, cur = raises(Exception, chain)
-                ok = not rc and cmp(me.array, cur / ext, sc)
-            ctx.require(ok, "C06.mean", "mean over several directions != iterated integral / extent", dirs=list(dirs), n=n)
-            ctx.require(isf and _mesh_ok(me.mesh, keep, pr, lo, hi, n), "C06.axis_removed", "mean([..]): wrong result mesh", dirs=list(dirs))
-    dup = [dims[0], dims[0]] if ndim == 1 else [dims[0], dims[-1], dims[0]]
-    r, e = raises(ValueError, f.mean, dup)
-    ctx.require(r, "C06.mean_duplicates", "duplicate directions accepted", dirs=dup)
-    r, e = raises(ValueError, f.mean, tuple(dup))
-    ctx.require(r, "C06.mean_duplicates", "duplicate directions (tuple) accepted", dirs=dup)
+    # ---------------- every quantity once, on the fresh mesh
+    _observe(ctx, f, F, geo, cmp, rng, ["volume", "fubini", "dir", "cum", "mean1", "means", "attrs"])
 
     # ---------------- linearity, per component
     ax = int(rng.integers(ndim))
@@ -290,6 +539,7 @@ def check(kind, pr, ctx):
 
     # ---------------- translation
     mesh_t, lo_t, hi_t, cell_t = _mesh(pr, pr["shift"])
+    geo_t = Geo(dims, pr["units"], n, lo_t, hi_t)
     ft = df.Field(mesh_t, value=F.copy(), **kw)
     coord = np.maximum(np.maximum(np.abs(lo), np.abs(hi)), np.maximum(np.abs(lo_t), np.abs(hi_t)))
     gfac = 1.0 if exact else float(1.0 + np.max(coord / edges))
@@ -302,10 +552,165 @@ def check(kind, pr, ctx):
     if ndim > 1:
         r, res = raises(Exception, lambda: ft.integrate(d).mesh)
         keep = [i for i in range(ndim) if i != ax]
-        if r or not _mesh_ok(res, keep, pr, lo_t, hi_t, n):
+        if r or not _mesh_ok(res, keep, geo_t):
             okt, why = False, "result mesh not shifted with the field"
     ctx.require(okt, "C06.translation", "result depends on the position of the mesh", mode=why, shift=pr["shift"])
 
 
 def _arr(x):
     return x if isinstance(x, np.ndarray) else x.array
+
+
+# ====================================================================== histories
+def _near(a, b, scale):
+    a = np.asarray(a, dtype=float)
+    b = np.asarray(b, dtype=float)
+    return a.shape == b.shape and bool(np.all(np.abs(a - b) <= 1e-9 * scale))
+
+
+class _Hist:
+    """the objects a user would hold: the Region handed to the mesh, the mesh, two fields on it; plus the oracle's F and geo"""
+
+    def __init__(self, pr):
+        self.exact = pr["exact"]
+        self.nv = pr["nvdim"]
+        self.kw = dict(nvdim=pr["nvdim"], vdims=pr["vdims"])
+        self.mesh, lo, hi, _ = _mesh(pr)
+        self.region = self.mesh.region
+        self.geo = Geo(pr["dims"], pr["units"], pr["n"], lo, hi)
+        self.rng = np.random.default_rng(pr["seed"])
+        shape = (*pr["n"], self.nv)
+        self.F = _values(self.rng, self.exact, shape)
+        self.f = df.Field(self.mesh, value=self.F.copy(), **self.kw)
+        self.g = df.Field(self.mesh, value=_values(self.rng, self.exact, shape), **self.kw)
+        self.cmp = Cmp(self.exact)
+
+    def handle(self, via):
+        return {"mesh": self.mesh, "field": self.f.mesh, "other-field": self.g.mesh, "region": self.region,
+                "field-region": self.f.mesh.region}[via]
+
+    def rebuild(self, mesh, F):
+        self.mesh, self.region, self.F = mesh, mesh.region, F
+        self.f = df.Field(mesh, value=F.copy(), **self.kw)
+        self.g = df.Field(mesh, value=F[::-1].copy(), **self.kw)
+
+
+def _tup(x):
+    return tuple(float(v) for v in x) if isinstance(x, (list, tuple)) else float(x)
+
+
+def _scaled_ok(old, new, factor):
+    fac = np.abs(np.array(factor, dtype=float)) * np.ones(old.ndim)
+    return _near(new.edges, old.edges * fac, max(old.coord(), new.coord()))
+
+
+def _rotated_ok(old, new, ax, k):
+    want = old.edges.copy()
+    if k % 2 == 1:
+        want[ax[0]], want[ax[1]] = old.edges[ax[1]], old.edges[ax[0]]
+    rest = [i for i in range(old.ndim) if i not in ax]
+    return (_near(new.edges, want, max(old.coord(), new.coord()))
+            and np.array_equal(new.lo[rest], old.lo[rest]) and np.array_equal(new.hi[rest], old.hi[rest]))
+
+
+def _step(H, st):
+    """apply one step to the live objects, move the oracle's picture along; returns (took_effect, note)"""
+    op = st["op"]
+    old = H.geo
+    if op == "scale":
+        ref = None if st["ref"] is None else _tup(st["ref"])
+        H.handle(st["via"]).scale(_tup(st["factor"]), reference_point=ref, inplace=True)
+        H.geo = Geo.live(H.mesh, H.F)
+        return _scaled_ok(old, H.geo, st["factor"]) and H.geo.dims == old.dims and H.geo.units == old.units, "edges x |factor|"
+    if op == "translate":
+        H.handle(st["via"]).translate(_tup(st["vector"]), inplace=True)
+        H.geo = Geo.live(H.mesh, H.F)
+        sc = max(old.coord(), H.geo.coord())
+        v = np.array(st["vector"], dtype=float)
+        return _near(H.geo.lo, old.lo + v, sc) and _near(H.geo.hi, old.hi + v, sc) and H.geo.dims == old.dims, "corners + vector"
+    if op == "rotate90":
+        i, j = st["ax"]
+        k = st["k"]
+        ref = None if st["ref"] is None else _tup(st["ref"])
+        ok = True
+        if st["via"] == "field-rotate":
+            H.f.rotate90(old.dims[i], old.dims[j], k=k, reference_point=ref, inplace=True)
+            H.F = np.ascontiguousarray(np.rot90(H.F, k=k, axes=(i, j)))
+            ok = np.array_equal(H.f.array, H.F)
+        else:
+            H.handle(st["via"]).rotate90(old.dims[i], old.dims[j], k=k, reference_point=ref, inplace=True)
+        H.cmp.exact = False         # cos(k pi/2) is not exactly 0: corners are only near the exact ones from here on
+        H.geo = Geo.live(H.mesh, H.F)
+        return ok and _rotated_ok(old, H.geo, [i, j], k) and H.geo.dims == old.dims, "edges of the pair swapped for odd k, values rotated"
+    if op == "rename":
+        if st["what"] == "dims":
+            H.region.dims = list(st["names"])
+        else:
+            H.region.units = list(st["names"])
+        H.geo = Geo.live(H.mesh, H.F)
+        want = (st["names"], old.units) if st["what"] == "dims" else (old.dims, st["names"])
+        return (H.geo.dims, H.geo.units) == (list(want[0]), list(want[1])) and np.array_equal(H.geo.lo, old.lo), "names read back"
+    if op == "values":
+        new = _values(np.random.default_rng(st["seed"]), H.exact, H.F.shape)
+        if st["how"] == "view":
+            H.f.array[...] = new
+        elif st["how"] == "setter":
+            H.f.array = new.copy()
+        else:
+            H.f.update_field_values(new.copy())
+        H.F = new
+        return np.array_equal(H.f.array, new), "values read back"
+    if op == "derive":
+        how = st["how"]
+        F = H.F
+        if how == "scale":
+            m2 = H.mesh.scale(_tup(st["factor"]), reference_point=None if st["ref"] is None else _tup(st["ref"]))
+        elif how == "translate":
+            m2 = H.mesh.translate(_tup(st["vector"]))
+        elif how == "rotate90":
+            i, j = st["ax"]
+            m2 = H.mesh.rotate90(old.dims[i], old.dims[j], k=st["k"], reference_point=None if st["ref"] is None else _tup(st["ref"]))
+            F = np.ascontiguousarray(np.rot90(F, k=st["k"], axes=(i, j)))
+            H.cmp.exact = False
+        else:
+            m2 = copy.deepcopy(H.mesh)
+            m2.scale(_tup(st["factor"]), reference_point=None if st["ref"] is None else _tup(st["ref"]), inplace=True)
+        H.old = (H.f, H.F, old)
+        untouched = Geo.live(H.mesh, H.F)
+        ok = (m2 is not H.mesh and m2.region is not H.region and np.array_equal(untouched.lo, old.lo) and np.array_equal(untouched.hi, old.hi)
+              and untouched.dims == old.dims and untouched.units == old.units)
+        H.rebuild(m2, F)
+        H.geo = Geo.live(m2, F)
+        if how in ("scale", "deepcopy-scale"):
+            ok = ok and _scaled_ok(old, H.geo, st["factor"])
+        elif how == "translate":
+            ok = ok and _near(H.geo.lo, old.lo + np.array(st["vector"]), max(old.coord(), H.geo.coord()))
+        else:
+            ok = ok and _rotated_ok(old, H.geo, st["ax"], st["k"])
+        return ok, "new mesh transformed, the observed one untouched"
+    raise ValueError("unknown op %r" % (op,))
+
+
+def _check_history(pr, ctx):
+    if int(np.prod(pr["n"])) == 1:
+        ctx.trivial()
+    H = _Hist(pr)
+    _observe(ctx, H.f, H.F, H.geo, H.cmp, H.rng, pr["obs0"], sig="history-initial", where="before the first step")
+    for k, st in enumerate(pr["steps"]):
+        op = st["op"]
+        label = "step %d: %s" % (k, {q: v for q, v in st.items() if q != "obs"})
+        sig = "history-after-" + op
+        H.old = None
+        r, res = raises(Exception, _step, H, st)
+        if r:
+            ctx.require(False, "C06.history", "the step raised", sig="history-%s-raises-%s" % (op, type(res).__name__), error=repr(res), where=label)
+            return
+        ctx.require(res[0] and np.array_equal(np.array(H.mesh.n), H.F.shape[:-1]), "C06.history", "the step did not take effect: " + res[1],
+                    sig="history-%s-no-effect" % op, where=label, now=[H.geo.lo, H.geo.hi, H.geo.dims, H.geo.units])
+        nviol = len(ctx.violations)
+        if H.old is not None:       # the field on the mesh the new one was derived from: same numbers as before
+            f0, F0, geo0 = H.old
+            _observe(ctx, f0, F0, geo0, H.cmp, H.rng, GROUPS, sig=sig + "-original", where=label + " (the original mesh)")
+        _observe(ctx, H.f, H.F, H.geo, H.cmp, H.rng, st["obs"], sig=sig, where=label)
+        if any(str(v["sig"]).startswith("history-after") for v in ctx.violations[nviol:]):
+            return      # whatever went stale stays stale: later steps would only repeat it under a misleading op name
